@@ -24,7 +24,7 @@ CFG = {
             "saw the current from-scratch values; glitch oracle at every read inside an effect run; trivial = tag `plain` only",
     "trusted": ["hx_common::sched controlled executor standing in for any executor (tasks polled one at a time on one thread)"],
     "modelled": ["Effect::new task loop", "EffectInner", "channel.rs (set flag + waker)", "signal writes from inside effects"],
-    "assumptions": ["Effect::new and RenderEffect::new; watch / new_isomorphic / ImmediateEffect share EffectInner but are not separately driven", "single-threaded executor"],
+    "assumptions": ["Effect::new, new_sync, new_isomorphic, watch (dependency function; handler inert) and RenderEffect::new are driven; ImmediateEffect and Selector are not", "single-threaded executor"],
     "manifest": {
         "category": "proof",
         "text": "PROVED: C02_effects_converge_readonly - for every well-formed program (tracked reads), every history of writes/reads/polls in ANY polling order, at every idle "
